@@ -116,7 +116,7 @@ impl Prop for C08 {
         "C08"
     }
     fn rule(&self) -> String {
-        "five complete families, both backends, every case in a worker subprocess with a 10 s watchdog, 8 MiB stack, 6 GiB address-space cap; compile + Display + contextualize of every error and warning: (1) all sequences of <=L tokens (quick 3, thorough 4) over a 40-token alphabet as whole input / module body / after `A ::=`; (2) every byte prefix of the 34 feature modules, token-boundary prefixes of the smallest real-world modules, and every single-token edit (delete, duplicate, swap, replace by / insert each of the 40 tokens) at every token position of the feature modules (thorough: + 30 real-world modules); (3) é/€/𝄞 inserted at every character position of the feature modules; (4) every feature module left inside an unterminated comment (line, block depth 1..3), cstring, bstring, brace, parenthesis, version bracket; (5) all functional reference graphs on 3 nodes over 8 edge kinds (alias, constrained alias, COMPONENTS OF, member, OF element, selection, CHOICE alternative, parameterized instantiation) with/without a value of the first type, nesting depth 2^k (quick <=4096, thorough <=65536) for 14 bracket-like recursions, and 16 parsed-but-unsupported notations in 6 positions. Oracle: the worker answers within the watchdog with a non-panic outcome. Non-trivial: the input reached the compiler and a verdict came back.".into()
+        "five complete families, both backends, every case in a worker subprocess with a 10 s watchdog, 8 MiB stack, 6 GiB address-space cap; compile + Display + contextualize of every error and warning: (1) all sequences of <=L tokens (quick 3, thorough 4) over a 40-token alphabet as whole input / module body / after `A ::=`; (2) every byte prefix of the 35 feature modules, token-boundary prefixes of the smallest real-world modules, and every single-token edit (delete, duplicate, swap, replace by / insert each of the 40 tokens) at every token position of the feature modules (thorough: + 30 real-world modules); (3) é/€/𝄞 inserted at every character position of the feature modules; (4) every feature module left inside an unterminated comment (line, block depth 1..3), cstring, bstring, brace, parenthesis, version bracket; (5) all functional reference graphs on 3 nodes over 8 edge kinds (alias, constrained alias, COMPONENTS OF, member, OF element, selection, CHOICE alternative, parameterized instantiation) with/without a value of the first type, nesting depth 2^k (quick <=4096, thorough <=65536) for 14 bracket-like recursions, and 16 parsed-but-unsupported notations in 6 positions. Oracle: the worker answers within the watchdog with a non-panic outcome. Non-trivial: the input reached the compiler and a verdict came back.".into()
     }
     fn assumptions(&self) -> Vec<String> {
         vec!["panic keys are file::function (resolved with syn from the panic Location) + message class; crashes/hangs are keyed by the input-shape label".into()]
@@ -299,11 +299,85 @@ impl Prop for C08 {
                                 let lab = if pure { format!("graph:walk=pure-reference-cycle:full=A-{ka}->{ta},B-{kb}->{tb},C-{kc}->{tc}") } else { format!("graph:walk={}@{loop_at}:full=A-{ka}->{ta},B-{kb}->{tb},C-{kc}->{tc}", walk.join(",")) };
                                 push("graph", lab.clone(), module(&body), "rasn");
                                 push("graph", format!("{lab}+value"), module(&format!("{body}\nv A ::= 1")), "rasn");
+                                // other ways a value / DEFAULT makes the linker walk the type graph: an identifier (enumeral or
+                                // named number of the root type), a value reference, a DEFAULT of the first type
+                                push("graph", format!("{lab}+value-ident"), module(&format!("{body}\nv A ::= x")), "rasn");
+                                push("graph", format!("{lab}+default"), module(&format!("{body}\nH ::= SEQUENCE {{ h A DEFAULT x }}")), "rasn");
+                                if !tier.thorough() && (ka, kb) > (kb, kc) {
+                                    continue;
+                                }
+                                push("graph", format!("{lab}+value-ref"), module(&format!("{body}\nw B ::= 2\nv A ::= w")), "rasn");
                                 if ka == kb && kb == kc {
                                     push("graph", format!("{lab}+ts"), module(&body), "ts");
                                 }
                             }
                         }
+                    }
+                }
+            }
+        }
+        // undefined targets and selection types in every position
+        for (lab, body) in [
+            ("undefined:select-top", "A ::= x < Undefined"),
+            ("undefined:select-member", "A ::= SEQUENCE { f x < Undefined }"),
+            ("select:member", "A ::= SEQUENCE { f z < Cho }\nCho ::= CHOICE { z NULL, y BOOLEAN }"),
+            ("select:alternative", "A ::= CHOICE { f z < Cho, g NULL }\nCho ::= CHOICE { z NULL, y BOOLEAN }"),
+            ("select:of", "A ::= SEQUENCE OF z < Cho\nCho ::= CHOICE { z NULL, y BOOLEAN }"),
+            ("select:missing-alternative", "A ::= q < Cho\nCho ::= CHOICE { z NULL }"),
+            ("select:of-non-choice", "A ::= z < B\nB ::= SEQUENCE { z NULL }"),
+            ("undefined:alias", "A ::= Undefined\nv A ::= 1"),
+            ("undefined:member", "A ::= SEQUENCE { f Undefined DEFAULT 1 }"),
+            ("undefined:compof", "A ::= SEQUENCE { COMPONENTS OF Undefined }"),
+            ("undefined:param", "A ::= Undefined { INTEGER }"),
+            ("undefined:value-ref", "A ::= INTEGER (0..undefined)\nv INTEGER ::= undefined2"),
+            ("undefined:class", "o UNDEFINED-CLASS ::= { &id 1 }\nS UNDEFINED-CLASS ::= { o }"),
+        ] {
+            push("graph", lab.to_string(), module(body), "both");
+        }
+        // all functional value-reference graphs on 4 nodes: every value is a literal or refers to one of the four
+        {
+            let vn = ["a", "b", "c", "d"];
+            for ty in ["INTEGER", "BOOLEAN", "Enu"] {
+                let lit = match ty {
+                    "INTEGER" => "5",
+                    "BOOLEAN" => "TRUE",
+                    _ => "x",
+                };
+                for code in 0..625usize {
+                    let mut body = String::from("Enu ::= ENUMERATED { x, y }\n");
+                    let mut k = code;
+                    let mut any_ref = false;
+                    let mut tgt = vec![];
+                    for i in 0..4 {
+                        let t = k % 5;
+                        k /= 5;
+                        tgt.push(t);
+                        if t == 4 {
+                            body += &format!("{} {ty} ::= {lit}\n", vn[i]);
+                        } else {
+                            any_ref = true;
+                            body += &format!("{} {ty} ::= {}\n", vn[i], vn[t]);
+                        }
+                    }
+                    if !any_ref {
+                        continue;
+                    }
+                    // label: does the walk from a end in a literal, a cycle through a, or a cycle not containing a?
+                    let mut seen = vec![];
+                    let mut cur = 0usize;
+                    let shape = loop {
+                        if tgt[cur] == 4 {
+                            break "literal";
+                        }
+                        if let Some(p) = seen.iter().position(|x| *x == cur) {
+                            break if p == 0 { "cycle-through-start" } else { "cycle-off-start" };
+                        }
+                        seen.push(cur);
+                        cur = tgt[cur];
+                    };
+                    push("graph", format!("valuegraph:{ty}:{shape}"), module(&body), "both");
+                    if code % 7 == 0 || tier.thorough() {
+                        push("graph", format!("valuegraph:{ty}:{shape}+default"), module(&format!("{body}S ::= SEQUENCE {{ f {ty} DEFAULT a, g {ty} (0..5) OPTIONAL }}")), "both");
                     }
                 }
             }
